@@ -286,6 +286,71 @@ func runC05(w *W) {
 			}
 		}
 	}
+
+	// sliding window: the amount of whitespace is layout whatever its size. Short statements made of comments of every
+	// kind, multi-character tokens, quotes and multi-byte characters are pushed by a run of blanks (leading, or inside a
+	// gap) so that each of their bytes in turn meets the 4096 / 8192 byte marks of the input (read-buffer boundaries).
+	windowStmts := []string{
+		"SELECT 1 /* c */ , 2 /* /* nested */ */ FROM t -- tail\n WHERE a >= 1",
+		"SELECT 'it''s', 'é€😀', `q``q`, \"d\"\"d\" FROM t # hash\n ORDER BY 1",
+		"SELECT a <= b, c != d, e <> f, g || h, i::UInt8, x -> y, k <=> l /*é*/ , 1.5e3, .5, t.1, db.02_t",
+		"SELECT $$he;re$$, $tag$ x $tag$, x'4142', {p:UInt8} /* €€€€ */ , 'a\\'b' -- é\n , 3",
+		"WITH 1 AS x /**/ SELECT x/**/UNION/**/ALL/**/SELECT 2 /* end */",
+	}
+	for si, ws := range windowStmts {
+		base := safeParse([]byte(ws), 1<<22)
+		if base.Panicked || base.Err != nil || len(base.Stmts) == 0 {
+			w.Count("window:base-not-valid")
+			continue
+		}
+		var baseEx []string
+		for _, st := range base.Stmts {
+			baseEx = append(baseEx, safeExplain(st).Out)
+		}
+		for _, mark := range []int{4096, 8192} {
+			for pad := mark - len(ws) - 2; pad <= mark+1; pad++ {
+				for _, where := range []int{0, 1} {
+					idx, mine := w.Case()
+					if !mine {
+						continue
+					}
+					var alt string
+					if where == 0 {
+						alt = strings.Repeat(" ", pad) + ws
+					} else { // inside the first gap
+						i := strings.IndexByte(ws, ' ')
+						alt = ws[:i] + strings.Repeat(" ", pad-i) + ws[i:]
+					}
+					w.Begin(idx, []byte(alt), fmt.Sprintf("window:%d:%d@%d", si, mark, pad))
+					w.Eval([]byte(alt), true)
+					w.Count("window-relayouts")
+					obs := safeParse([]byte(alt), 1<<22)
+					fail := ""
+					switch {
+					case obs.Panicked:
+						fail = "panic: " + obs.PanicVal
+					case obs.Budget:
+						fail = "did not terminate"
+					case obs.Err != nil:
+						fail = "error: " + obs.Err.Error()
+					case len(obs.Stmts) != len(base.Stmts):
+						fail = fmt.Sprintf("%d statements instead of %d", len(obs.Stmts), len(base.Stmts))
+					default:
+						for i, st := range obs.Stmts {
+							if e := safeExplain(st); e.Panicked || e.Out != baseEx[i] {
+								fail = "EXPLAIN differs: " + firstLineDiff(baseEx[i], e.Out)
+								break
+							}
+						}
+					}
+					if fail != "" {
+						w.Report(Finding{Kind: "layout", Key: "layout@window", Input: fmt.Sprintf("%q", trunc(alt, 200)+"…"), InputHex: hexs([]byte(alt)),
+							Detail: fmt.Sprintf("original: %q, moved by %d blanks (%s)\n%s", ws, pad, []string{"leading", "in the first gap"}[where], fail)})
+					}
+				}
+			}
+		}
+	}
 }
 
 // softKeywords: the words the parser compares identifiers with (every all-upper-case string literal of package
